@@ -601,6 +601,18 @@ class BaseIOStream:
         if self._read_future is not None:
             futures.append(self._read_future)
             self._read_future = None
+            # The pending read is about to fail: forget its parameters so
+            # that a later read on the closed stream (which is legal, it
+            # may be served from the read buffer) is not evaluated against
+            # them, and stop using the caller's read_into buffer.
+            self._read_bytes = self._read_delimiter = self._read_regex = None
+            self._read_max_bytes = None
+            self._read_partial = False
+            if self._user_read_buffer:
+                self._read_buffer = self._after_user_read_buffer or bytearray()
+                self._after_user_read_buffer = None
+                self._read_buffer_size = len(self._read_buffer)
+                self._user_read_buffer = False
         futures += [future for _, future in self._write_futures]
         self._write_futures.clear()
         if self._connect_future is not None:
